@@ -24,6 +24,7 @@ FINDERS = {
     "C10": [("session_witness", ["c10"])],
     "C17": [("session_witness", ["c17"])],
     "C02": [("session_witness", ["c02"])],
+    "C20": [("time_witness", [])],
 }
 
 def build(repo, scratch, bins):
